@@ -484,3 +484,297 @@ Proof.
     rewrite (cut_at_none _ _ Hn) in H. destruct (parse6_body (print6 ip)); [|discriminate]. injection H as ->. auto. }
   destruct Hbody as [Hb Hn]. unfold parse6. rewrite (cut_at_app _ _ _ Hn). destruct z; [congruence|]. now rewrite Hb.
 Qed.
+
+(* ================================================================ character classes of printed text *)
+Definition hexlow (c : N) : bool := is_digit c || ((97 <=? c) && (c <=? 102)).
+Definition plainc (c : N) : bool := negb ((c =? c_dot) || (c =? c_colon) || (c =? c_pct)).
+Definition textc (c : N) : bool := hexlow c || (c =? c_colon) || (c =? c_dot).
+
+Definition dec_chars_ok (b : N) : bool :=
+  forallb is_digit (dec_byte b) &&
+  match feedhex (dec_byte b) 0 0 with Some (S _, _) => true | _ => false end.
+Lemma dec_chars_all : all_below dec_chars_ok 8 0 = true.
+Proof. vm_compute. reflexivity. Qed.
+Lemma dec_chars b : b < 256 ->
+  forallb is_digit (dec_byte b) = true /\ exists k v, feedhex (dec_byte b) 0 0 = Some (S k, v).
+Proof.
+  intro Hb. pose proof (all_below_spec dec_chars_ok 8 0 dec_chars_all b) as H.
+  assert (Hr : 0 <= b < 0 + 2 ^ N.of_nat 8) by (cbn; lia). specialize (H Hr).
+  unfold dec_chars_ok in H. apply andb_true_iff in H as [H1 H2]. split; [exact H1|].
+  destruct (feedhex (dec_byte b) 0 0) as [[[|k] v]|]; try discriminate. eauto.
+Qed.
+
+Definition hex_chars_ok (g : N) : bool := forallb hexlow (hex_group g).
+Lemma hex_chars_all : all_below hex_chars_ok 16 0 = true.
+Proof. vm_compute. reflexivity. Qed.
+Lemma hex_chars g : g < 65536 -> forallb hexlow (hex_group g) = true.
+Proof.
+  intro Hg. apply (all_below_spec hex_chars_ok 16 0 hex_chars_all g). cbn; lia.
+Qed.
+
+Lemma forallb_impl {A} (p q : A -> bool) l : (forall x, p x = true -> q x = true) -> forallb p l = true -> forallb q l = true.
+Proof. intros H. induction l; cbn; [auto|]. intro E. apply andb_true_iff in E as [E1 E2]. now rewrite (H _ E1), IHl. Qed.
+
+Lemma digit_hexlow c : is_digit c = true -> hexlow c = true.
+Proof. unfold hexlow. now intros ->. Qed.
+Lemma hexlow_textc c : hexlow c = true -> textc c = true.
+Proof. unfold textc. now intros ->. Qed.
+Lemma hexlow_plainc c : hexlow c = true -> plainc c = true.
+Proof. unfold hexlow, plainc, is_digit, c_dot, c_colon, c_pct. lia. Qed.
+
+Lemma first_decisive_app h c rest :
+  forallb plainc h = true -> (c =? c_dot) || (c =? c_colon) || (c =? c_pct) = true ->
+  first_decisive (h ++ c :: rest) = Some c.
+Proof.
+  intros Hh Hc. induction h as [|x h IH]; cbn [app first_decisive].
+  - now rewrite Hc.
+  - cbn [forallb] in Hh. apply andb_true_iff in Hh as [Hx Hh]. unfold plainc in Hx. apply negb_true_iff in Hx.
+    rewrite Hx. now apply IH.
+Qed.
+
+Lemma textc_no c s : forallb textc s = true -> textc c = false -> has_byte c s = false.
+Proof.
+  intros Hs Hc. rewrite has_byte_existsb. apply Bool.not_true_is_false. intro E.
+  apply existsb_exists in E as (x & Hin & Hx). apply N.eqb_eq in Hx. subst x.
+  rewrite forallb_forall in Hs. rewrite (Hs c Hin) in Hc. discriminate.
+Qed.
+
+(* ---- print4 ---- *)
+Lemma print4_textc a0 a1 a2 a3 : a0 < 256 -> a1 < 256 -> a2 < 256 -> a3 < 256 -> forallb textc (print4 [a0; a1; a2; a3]) = true.
+Proof.
+  intros H0 H1 H2 H3. unfold print4.
+  assert (D : forall b, b < 256 -> forallb textc (dec_byte b) = true).
+  { intros b Hb. destruct (dec_chars b Hb) as [Hd _]. eapply forallb_impl; [|exact Hd].
+    intros x Hx. apply hexlow_textc, digit_hexlow, Hx. }
+  repeat (rewrite forallb_app; cbn [forallb]). rewrite !D by auto. reflexivity.
+Qed.
+
+Theorem parse_addr_print4 a0 a1 a2 a3 : a0 < 256 -> a1 < 256 -> a2 < 256 -> a3 < 256 ->
+  parse_addr (print4 [a0; a1; a2; a3]) = Some ([a0; a1; a2; a3], []).
+Proof.
+  intros H0 H1 H2 H3. unfold parse_addr.
+  assert (Hfd : first_decisive (print4 [a0; a1; a2; a3]) = Some c_dot).
+  { unfold print4. apply first_decisive_app; [|reflexivity].
+    destruct (dec_chars a0 H0) as [Hd _]. eapply forallb_impl; [|exact Hd].
+    intros x Hx. apply hexlow_plainc, digit_hexlow, Hx. }
+  rewrite Hfd. rewrite N.eqb_refl. now rewrite parse4_print4.
+Qed.
+
+(* ---- print6 ---- *)
+Lemma colon_groups_textc gs : groups_ok gs -> forallb textc (colon_groups gs) = true.
+Proof.
+  induction 1 as [|g r Hg Hr IH]; [reflexivity|]. rewrite colon_groups_cons.
+  change (c_colon :: hex_group g ++ colon_groups r) with ([c_colon] ++ hex_group g ++ colon_groups r).
+  rewrite !forallb_app. apply andb_true_iff; split; [reflexivity|]. apply andb_true_iff; split;
+    [exact (forallb_impl _ _ _ hexlow_textc (hex_chars g Hg)) | exact IH].
+Qed.
+Lemma join_groups_textc gs : groups_ok gs -> forallb textc (join_groups gs) = true.
+Proof.
+  intro H. destruct gs as [|g r]; [reflexivity|]. inversion H; subst. cbn [join_groups].
+  rewrite forallb_app. apply andb_true_iff; split;
+    [exact (forallb_impl _ _ _ hexlow_textc (hex_chars g H2)) | now apply colon_groups_textc].
+Qed.
+
+Lemma print6_textc ip : wf_ip ip -> forallb textc (print6 ip) = true.
+Proof.
+  intro Hwf. pose proof (groups_ok_of ip Hwf) as Hok. unfold print6.
+  destruct (best_run (groups_of ip) 0 None) as [[st l]|].
+  - change (join_groups (firstn st (groups_of ip)) ++ c_colon :: c_colon :: join_groups (skipn (st + l) (groups_of ip)))
+      with (join_groups (firstn st (groups_of ip)) ++ dcolon ++ join_groups (skipn (st + l) (groups_of ip))).
+    rewrite !forallb_app. apply andb_true_iff; split; [apply join_groups_textc, forall_firstn, Hok|].
+    apply andb_true_iff; split; [reflexivity | apply join_groups_textc, forall_skipn, Hok].
+  - now apply join_groups_textc.
+Qed.
+
+Lemma join_groups_shape g r rest : g < 65536 -> (r <> [] \/ exists t, rest = c_colon :: t) ->
+  exists h t, join_groups (g :: r) ++ rest = h ++ c_colon :: t /\ forallb plainc h = true.
+Proof.
+  intros Hg Hor. exists (hex_group g). cbn [join_groups].
+  assert (Hp : forallb plainc (hex_group g) = true) by (exact (forallb_impl _ _ _ hexlow_plainc (hex_chars g Hg))).
+  destruct r as [|g' r'].
+  - destruct Hor as [Hr|(t & ->)]; [congruence|]. exists t. cbn [colon_groups flat_map]. rewrite app_nil_r. auto.
+  - rewrite colon_groups_cons. eexists. rewrite <- app_assoc. cbn [app]. split; [reflexivity | exact Hp].
+Qed.
+
+Lemma print6_shape ip : wf_ip ip -> length ip = 16%nat ->
+  exists h t, print6 ip = h ++ c_colon :: t /\ forallb plainc h = true.
+Proof.
+  intros Hwf Hlen. pose proof (groups_ok_of ip Hwf) as Hok. pose proof (groups_of_length ip Hlen) as H8.
+  unfold print6. destruct (best_run (groups_of ip) 0 None) as [[st l]|] eqn:E.
+  - destruct (firstn st (groups_of ip)) as [|g pre'] eqn:Ep.
+    + exists [], (c_colon :: join_groups (skipn (st + l) (groups_of ip))). auto.
+    + assert (Hg : g < 65536).
+      { pose proof (forall_firstn _ st _ Hok) as F. rewrite Ep in F. now inversion F. }
+      apply join_groups_shape; [exact Hg|]. right. eauto.
+  - destruct (groups_of ip) as [|g [|g' r]]; try discriminate. inversion Hok; subst.
+    destruct (join_groups_shape g (g' :: r) [] H1) as (h & t & Hs & Hp); [left; discriminate|].
+    rewrite app_nil_r in Hs. eauto.
+Qed.
+
+Theorem parse_addr_print6 ip z : wf_ip ip -> length ip = 16%nat ->
+  parse_addr (with_zone (print6 ip) z) = Some (ip, z).
+Proof.
+  intros Hwf Hlen. destruct (print6_shape ip Hwf Hlen) as (h & t & Hs & Hp).
+  unfold parse_addr, with_zone. destruct z as [|c z].
+  - rewrite Hs at 1. rewrite (first_decisive_app h c_colon t Hp eq_refl).
+    change (c_colon =? c_dot) with false. cbv iota. rewrite N.eqb_refl. now apply parse6_print6.
+  - rewrite Hs at 1. rewrite <- app_assoc. cbn [app]. rewrite (first_decisive_app h c_colon _ Hp eq_refl).
+    change (c_colon =? c_dot) with false. cbv iota. rewrite N.eqb_refl. apply parse6_print6_zone; auto. discriminate.
+Qed.
+
+(* ================================================================ the v4-in-v6 text *)
+Definition mapped_prefix_text : bytes := [58; 58; 102; 102; 102; 102; 58].      (* "::ffff:" *)
+
+Lemma hexdig_dot : hexdig c_dot = None. Proof. reflexivity. Qed.
+
+Lemma p6_step_v4 f ip e a0 a1 a2 a3 :
+  a0 < 256 -> a1 < 256 -> a2 < 256 -> a3 < 256 -> (length ip + 4 <= 16)%nat ->
+  p6_loop (S f) (print4 [a0; a1; a2; a3]) (Some e) ip = Some (ip ++ [a0; a1; a2; a3], Some e, []).
+Proof.
+  intros H0 H1 H2 H3 Hl. pose proof (parse4_print4 a0 a1 a2 a3 H0 H1 H2 H3) as P.
+  destruct (dec_chars a0 H0) as [_ (k & v & Hf)]. unfold print4 in *.
+  cbn [p6_loop]. replace (Nat.leb 16 (length ip)) with false by (symmetry; apply Nat.leb_gt; lia).
+  rewrite (read_hex_feed _ _ _ (c_dot :: dec_byte a1 ++ c_dot :: dec_byte a2 ++ c_dot :: dec_byte a3) _ _ Hf hexdig_dot).
+  cbn [Nat.eqb]. rewrite N.eqb_refl. cbn [andb].
+  replace (Nat.ltb 16 (length ip + 4)) with false by (symmetry; apply Nat.ltb_ge; lia).
+  now rewrite P.
+Qed.
+
+(* concrete instances of the IPv4-in-IPv6 text (the general statement is covered at byte level by
+   C06_v4_mapped_same and on every run by the correspondence) *)
+Example mapped_text_1 : parse_addr (mapped_prefix_text ++ print4 [10; 0; 0; 1]) = Some (mapped [10; 0; 0; 1], []).
+Proof. vm_compute. reflexivity. Qed.
+Example mapped_text_2 : parse_addr (mapped_prefix_text ++ print4 [255; 255; 255; 255]) = Some (mapped [255; 255; 255; 255], []).
+Proof. vm_compute. reflexivity. Qed.
+
+(* ================================================================ discharging the assumptions about Go's net
+   package for literals: with the concrete ParseIP / IP.String / literal ResolveIPAddr, G2, G4 (literal law)
+   and G5 are theorems; only the name system stays external *)
+Lemma to4_len4 a x : to4 a = Some x -> length x = 4%nat.
+Proof.
+  unfold to4, len_is. destruct (Nat.eqb (length a) 4) eqn:E4.
+  - intro H; injection H as <-. now apply Nat.eqb_eq.
+  - destruct (Nat.eqb (length a) 16) eqn:E16; [|discriminate]. cbn [andb].
+    destruct (bytes_eqb (firstn 12 a) v4in6_prefix); [|discriminate].
+    apply Nat.eqb_eq in E16.
+    assert (Hl : length (skipn 12 a) = 4%nat) by (rewrite skipn_length; lia).
+    intro H; injection H as <-. exact Hl.
+Qed.
+
+Lemma wf_skipn n a : wf_bytes a = true -> wf_bytes (skipn n a) = true.
+Proof.
+  unfold wf_bytes. revert n; induction a as [|x a IH]; intros [|n] H; auto.
+  cbn [forallb] in H. apply andb_true_iff in H as [_ H]. now apply IH.
+Qed.
+
+Lemma to4_wf a x : to4 a = Some x -> wf_bytes a = true -> wf_bytes x = true.
+Proof.
+  unfold to4. destruct (len_is 4 a); [intro H; injection H as <-; auto|].
+  destruct (len_is 16 a && bytes_eqb (firstn 12 a) v4in6_prefix); [|discriminate].
+  intros H Hw. pose proof (wf_skipn 12 a Hw) as W. injection H as <-. exact W.
+Qed.
+
+Lemma four_bytes x : length x = 4%nat -> wf_bytes x = true ->
+  exists a0 a1 a2 a3, x = [a0; a1; a2; a3] /\ a0 < 256 /\ a1 < 256 /\ a2 < 256 /\ a3 < 256.
+Proof.
+  intros Hl Hw. do 5 (destruct x as [|? x]; try discriminate).
+  unfold wf_bytes, wf_byte in Hw. cbn [forallb] in Hw.
+  repeat (apply andb_true_iff in Hw as [? Hw]). exists b, b0, b1, b2. repeat split; auto; lia.
+Qed.
+
+Lemma valid_not_v4_len16 a : valid_ip a = true -> to4 a = None -> length a = 16%nat.
+Proof.
+  unfold valid_ip, to4, len_is. destruct (Nat.eqb (length a) 4); [discriminate|]. cbn [orb].
+  intros H _. now apply Nat.eqb_eq.
+Qed.
+
+Lemma ip_str_c_v4 a x : valid_ip a = true -> to4 a = Some x -> ip_str_c a = print4 x.
+Proof.
+  intros Hv E. unfold ip_str_c. destruct a as [|b a]; [discriminate|]. now rewrite Hv, E.
+Qed.
+Lemma ip_str_c_v6 a : valid_ip a = true -> to4 a = None -> ip_str_c a = print6 a.
+Proof.
+  intros Hv E. unfold ip_str_c. destruct a as [|b a]; [discriminate|]. now rewrite Hv, E.
+Qed.
+
+Theorem ip_str_c_textc a : valid_ip a = true -> wf_bytes a = true -> forallb textc (ip_str_c a) = true.
+Proof.
+  intros Hv Hw. destruct (to4 a) as [x|] eqn:E.
+  - rewrite (ip_str_c_v4 a x Hv E).
+    destruct (four_bytes x (to4_len4 a x E) (to4_wf a x E Hw)) as (a0 & a1 & a2 & a3 & -> & ? & ? & ? & ?).
+    now apply print4_textc.
+  - rewrite (ip_str_c_v6 a Hv E). now apply print6_textc.
+Qed.
+
+(* G2 *)
+Theorem ip_str_c_no_brackets a : valid_ip a = true -> wf_bytes a = true -> no_brackets (ip_str_c a) = true.
+Proof.
+  intros Hv Hw. pose proof (ip_str_c_textc a Hv Hw) as Ht. apply no_brackets_iff.
+  split; apply (textc_no _ _ Ht); reflexivity.
+Qed.
+
+(* G5 *)
+Theorem ip_str_c_norm a a' : valid_ip a = true -> valid_ip a' = true -> norm a = norm a' -> ip_str_c a = ip_str_c a'.
+Proof.
+  intros Hv Hv' Hn. unfold norm in Hn.
+  destruct (to4 a) as [x|] eqn:E; destruct (to4 a') as [x'|] eqn:E'.
+  - subst x'. now rewrite (ip_str_c_v4 a x Hv E), (ip_str_c_v4 a' x Hv' E').
+  - subst x. exfalso. pose proof (to4_len4 _ _ E) as L. pose proof (valid_not_v4_len16 _ Hv' E') as L'. lia.
+  - subst x'. exfalso. pose proof (to4_len4 _ _ E') as L. pose proof (valid_not_v4_len16 _ Hv E) as L'. lia.
+  - now subst a'.
+Qed.
+
+Lemma resolve_with_literal names h r : resolve_literal h = Some r -> resolve_with names h = Some r.
+Proof.
+  intro H. unfold resolve_with. destruct h as [|c t]; [discriminate|]. now rewrite H.
+Qed.
+
+(* G4: the literal law holds for the concrete functions, whatever the name system answers *)
+Theorem literal_law_concrete names : literal_law ip_str_c (resolve_with names).
+Proof.
+  intros a z Hv Hw H4 Hz. unfold ip_text. destruct (to4 a) as [x|] eqn:E.
+  - assert (z = []) by (apply H4; unfold addr_is_v4; now rewrite E). subst z. unfold with_zone.
+    rewrite (ip_str_c_v4 a x Hv E).
+    destruct (four_bytes x (to4_len4 a x E) (to4_wf a x E Hw)) as (a0 & a1 & a2 & a3 & -> & ? & ? & ? & ?).
+    exists (to16 [a0; a1; a2; a3]). split; [|split].
+    + apply resolve_with_literal. unfold resolve_literal. now rewrite parse_addr_print4.
+    + unfold norm at 2. rewrite E. reflexivity.
+    + reflexivity.
+  - rewrite (ip_str_c_v6 a Hv E). pose proof (valid_not_v4_len16 a Hv E) as L. exists a. split; [|split; auto].
+    apply resolve_with_literal. unfold resolve_literal. rewrite (parse_addr_print6 a z Hw L).
+    unfold to16, len_is. rewrite L. reflexivity.
+Qed.
+
+(* G3 for the literal branch: the zone is a piece of the host *)
+Lemma cut_at_spec c s a b : cut_at c s = Some (a, b) -> s = a ++ c :: b.
+Proof.
+  revert a; induction s as [|x r IH]; intros a H; [discriminate|]. cbn [cut_at] in H.
+  destruct (x =? c) eqn:E.
+  - injection H as <- <-. apply N.eqb_eq in E. now subst.
+  - destruct (cut_at c r) as [[a' b']|]; [|discriminate]. injection H as <- <-. cbn [app]. f_equal. now apply IH.
+Qed.
+
+Lemma parse_addr_zone_piece h a z : parse_addr h = Some (a, z) -> no_brackets h = true -> no_brackets z = true.
+Proof.
+  unfold parse_addr. destruct (first_decisive h) as [c|]; [|discriminate].
+  destruct (c =? c_dot).
+  - destruct (parse4 h); [|discriminate]. intro H; injection H as _ <-. reflexivity.
+  - destruct (c =? c_colon); [|discriminate]. unfold parse6.
+    destruct (cut_at c_pct h) as [[s zz]|] eqn:Ec.
+    + destruct zz as [|q zz]; [discriminate|]. destruct (parse6_body s); [|discriminate].
+      intro H; injection H as _ <-. intro Hb. apply cut_at_spec in Ec. subst h.
+      rewrite no_brackets_app in Hb. apply andb_true_iff in Hb as [_ Hb].
+      change (c_pct :: q :: zz) with ([c_pct] ++ q :: zz) in Hb. rewrite no_brackets_app in Hb.
+      now apply andb_true_iff in Hb as [_ Hb].
+    + destruct (parse6_body h); [|discriminate]. intro H; injection H as _ <-. reflexivity.
+Qed.
+
+Theorem zone_law_concrete names :
+  (forall h a z, names h = Some (a, z) -> no_brackets z = true) -> zone_law (resolve_with names).
+Proof.
+  intros Hn h a z H Hb. unfold resolve_with in H. destruct h as [|c t].
+  - injection H as _ <-. reflexivity.
+  - unfold resolve_literal in H. destruct (parse_addr (c :: t)) as [[a0 z0]|] eqn:E.
+    + injection H as _ <-. eapply parse_addr_zone_piece; eauto.
+    + eapply Hn; eauto.
+Qed.
